@@ -193,7 +193,7 @@ impl Engine for TaskEngine {
         let scripts = ["cp cwp r", "cwp wp r", "ccp vp sdr", "cr", "cp p p", "cxp p", "ccxr"];
         let mut out = Vec::new();
         // real threads waking one idle task at the same moment
-        for (k, n) in if tier == Tier::Quick { vec![(2, 3000), (3, 1500)] } else { vec![(2, 20000), (3, 12000), (4, 8000), (2, 20000)] } {
+        for (k, n) in if tier == Tier::Quick { vec![(2, 1500), (3, 800)] } else { vec![(2, 20000), (3, 12000), (4, 8000), (2, 20000)] } {
             for kind in ["spawn", "forget"] {
                 let mut lines = vec![format!("case task {kind}"), "script cp".to_string(), "run".to_string(), format!("racewake {k} {n}")];
                 finish(&mut lines);
@@ -201,7 +201,7 @@ impl Engine for TaskEngine {
             }
         }
         // a task cancelled by one thread while another thread wakes and runs it
-        out.push(Case { lines: vec!["case task forget".to_string(), "script p".to_string(), format!("racecancel {}", if tier == Tier::Quick { 4000 } else { 15000 }), "run".into(), "dropt".into(), "dropr".into()] });
+        out.push(Case { lines: vec!["case task forget".to_string(), "script p".to_string(), format!("racecancel {}", if tier == Tier::Quick { 2500 } else { 15000 }), "run".into(), "dropt".into(), "dropr".into()] });
         for kind in ["spawn", "forget"] {
             for sc in scripts {
                 for len in 1..=maxlen {
@@ -470,7 +470,7 @@ impl Engine for TaskEngine {
                                             let mut spins = 0u32;
                                             while go.load(Ordering::Acquire) < r {
                                                 spins += 1;
-                                                if spins % 2000 == 0 {
+                                                if spins % 200 == 0 {
                                                     std::thread::yield_now();
                                                 } else {
                                                     std::hint::spin_loop();
@@ -489,7 +489,7 @@ impl Engine for TaskEngine {
                                     let mut spins = 0u32;
                                     while done.load(Ordering::Acquire) < r * k {
                                         spins += 1;
-                                        if spins % 2000 == 0 {
+                                        if spins % 200 == 0 {
                                             std::thread::yield_now();
                                         } else {
                                             std::hint::spin_loop();
